@@ -600,9 +600,12 @@ def run(ctx):
         if isinstance(node, ast.Attribute) and isinstance(node.value, ast.Name) and node.value.id == 'atom':
             ipg_names.add(node.attr)
     ctx.ob('C12.R5', 'classifier:own-fields-only',
-           ipg_names <= {'type', 'terminal', 'name', 'res_name', 'count_bonded_elements'},
-           'is_protein_group reads only the atom\'s own fields (and one bonded-oxygen count for '
-           'the backbone carbonyl): %s' % sorted(ipg_names), gmod, ipg)
+           ipg_names <= {'type', 'terminal', 'name', 'res_name', 'count_bonded_elements',
+                         'bonded_atoms', 'chain_id', 'res_num', 'icode'},
+           'is_protein_group reads only the atom\'s own fields, one bonded-oxygen count for the '
+           'backbone carbonyl, and the atom\'s bonds to tell a tagged N-terminus from a nitrogen '
+           'that is peptide-bonded to a preceding residue (either way a group is created for the '
+           'atom): %s' % sorted(ipg_names), gmod, ipg)
     common.check_bridge_not_titrated(ctx, 'C12.R5', prog)
     ctx.assume('distinct atoms have distinct coordinates (vector lengths used as denominators are '
                'non-zero)')
